@@ -470,6 +470,24 @@ def _accepted_variant_types(prog, fn, node):
                         for alt in tables.pat_alts(a["pat"]):
                             if alt[0] in ("v", "ctor", "struct") and alt[1]:
                                 acc.add(vname(alt[1]))
+        if not acc:
+            # the table as data: a const slice of (VariantType, id) rows searched with find / position, plus explicit
+            # `if ty == VariantType::X { return Some(..) }` cases in front of the search
+            VT = "rbx_types::variant::VariantType::"
+            for m in core.walk_fn(tf):
+                if m.get("k") == "Path" and str(m.get("res", "")).startswith(("Const", "Static")):
+                    cf = prog.fns.get(m.get("def") or "")
+                    if cf is not None and cf.body is not None:
+                        for y in core.walk(cf.body):
+                            if y.get("k") == "Path" and (y.get("def") or "").startswith(VT):
+                                acc.add(vname(y["def"]))
+                if m.get("k") == "If":
+                    cnd = core.strip(m["c"])
+                    if cnd.get("k") == "Binary" and cnd.get("op") == "==" and any(z.get("k") == "Ret" and "Some" in core.fingerprint(z.get("e", {}), 3) for z in core.walk(m["t"])):
+                        for side in (cnd["l"], cnd["r"]):
+                            sd = core.strip(side)
+                            if sd.get("k") == "Path" and (sd.get("def") or "").startswith(VT):
+                                acc.add(vname(sd["def"]))
         if acc:
             return core.callee(x), acc
     return None
